@@ -37,6 +37,7 @@ func propC14(c *Ctx) propInfo {
 	c.walletConstants()
 	c.walletDecodeTables()
 	c.externalEnvelope()
+	c.requestedPartsCarried()
 	c.payloadCodecs()
 	c.bocHeaderAgreement() // the payload handed to the network is serialised through serializeBoc
 	// the wallet's own codecs and message builders contain no reachable crash construct (an empty
@@ -873,4 +874,70 @@ func (c *Ctx) walletConstants() {
 		}
 		c.check(strings.Join(ws, ",") == "1,8,8,15" && rd == 32, R, "v5r1 wallet-id context = client:1 workchain:8 version:8 subwallet:15, read as 32 bits", f.Pos(), strings.Join(ws, ",")+" -> "+fmt.Sprint(rd), fmt.Sprintf("genContextID writes fields of widths [%s] and reads back %d bits; the v5r1 wallet-id context is [1,8,8,15] = 32 bits - any other layout gives a wallet id, and so an address, that no v5r1 contract computes", strings.Join(ws, ","), rd))
 	}
+}
+
+// requestedPartsCarried: what the caller asks a wallet to send is a wallet.Message with an optional body and
+// an optional state-init (Code+Data), which are independent of each other. Message.ToInternal (and whatever
+// unexported helper it is split into) must look at each of the optional parts on the way to EVERY successful
+// return: a guard clause that returns for "no body" before the state-init is examined sends a deployment
+// without its state-init. Rule: for each pointer field of the request, a nil test of that field dominates every
+// success exit.
+func (c *Ctx) requestedPartsCarried() {
+	const R = "E15.request-parts"
+	f := c.mustFn(R, "wallet", "Message.ToInternal")
+	if f == nil {
+		return
+	}
+	ei := errIndex(f.Signature)
+	if ei < 0 {
+		c.bad(R, "Message.ToInternal returns an error", f.Pos(), "Message.ToInternal no longer has an error result (anchor changed; undecided)")
+		return
+	}
+	for _, part := range [][]string{{"Body"}, {"Code", "Data"}} {
+		fld := strings.Join(part, "/")
+		var tests []*ssa.BasicBlock
+		for _, b := range f.Blocks {
+			iff := lastIf(b)
+			if iff == nil {
+				continue
+			}
+			// the condition (possibly one leg of a && / ||) compares a load of receiver.fld with nil
+			bo, ok := iff.Cond.(*ssa.BinOp)
+			if !ok || (bo.Op != token.EQL && bo.Op != token.NEQ) {
+				continue
+			}
+			x := bo.X
+			if isNilConst(x) {
+				x = bo.Y
+			} else if !isNilConst(bo.Y) {
+				continue
+			}
+			if ld, ok := x.(*ssa.UnOp); ok && ld.Op == token.MUL {
+				x = ld.X
+			}
+			if tn, fn, ok := fieldOf(x); ok && strings.HasSuffix(tn, ".Message") {
+				for _, want := range part {
+					if fn == want {
+						tests = append(tests, b)
+					}
+				}
+			}
+		}
+		okv := len(tests) > 0
+		where := ""
+		for _, sp := range successPoints(f, ei) {
+			dom := false
+			for _, t := range tests {
+				if t.Dominates(sp.Block) {
+					dom = true
+				}
+			}
+			if !dom {
+				okv = false
+				where = c.rel(sp.Ret.Pos())
+			}
+		}
+		c.check(okv, R, "Message.ToInternal examines "+fld+" before every successful return", f.Pos(), "a nil test of the request's "+fld+" dominates all success exits", "Message.ToInternal can return successfully (at "+where+") without having looked at the request's "+fld+": a message that carries it (a deployment without body, a body without state-init) is built without it and the wallet signs something the caller did not ask for")
+	}
+	c.floor(R, 2)
 }
